@@ -39,6 +39,9 @@ CHECKS = {
  "C12": ("model_checking", "exhaustive differential enumeration of all 8 subsets of {t_eval, dense_output, non-terminal events} per lattice point, each run twice",
          "The 128-bit fingerprint of every non-Jacobian RHS call (time and state bits), the statistics, the accepted steps/states and the final state of each subset run are compared with the plain run, and each run with its repetition.",
          "the RHS call log is the complete record of a deterministic integration", "DESIGN.md §3 C12", "E1"),
+ "C13": ("model_checking", "exhaustive differential enumeration of symmetry generators (time reflection, 2^k scaling, scalar vs vector tolerance, m copies) over a configuration lattice",
+         "Each generator is applied to every lattice point (six methods, problems, tolerances, spans, Jacobian sources, events, initial-step modes) and the transformed run is compared with the transformed original: bitwise where IEEE arithmetic makes the symmetry exact, rounding/tolerance level otherwise; copies are compared on the accepted-step grids seen by the low-level callbacks.",
+         "copies: first accepted steps to 1e-6, the rest to 1e-5 (explicit) or 2% (Radau/BDF, whose discrete Newton decisions can flip on rounding)", "DESIGN.md §3 C13", "E1"),
  "C14": ("model_checking", "exhaustive stiffness/tolerance ladders on the real Radau and BDF with closed-form and reference oracles, plus a per-step monitor binding accepted Radau steps to the extracted collocation tableau",
          "Every (method, family, tolerance, Jacobian source) is run over the whole stiffness ladder k=1e2..1e10 (Prothero-Robinson, linear systems n=1..8 with 1..n-1 fast modes, kinetics chains) and the nonlinear problems (Robertson, Van der Pol mu=10..1000) over a tolerance ladder: Success, accuracy, step count and work bounded along the ladder, linear invariants; in addition every accepted Radau step of the nonlinear runs must solve the stage equations of the extracted tableau to tolerance (one exact Newton correction computed by the harness).",
          "invariants to rounding with the user Jacobian, to tolerance with the finite-difference one; nonlinear reference = Radau at rtol 1e-11", "DESIGN.md §3 C14", "E1"),
